@@ -73,6 +73,13 @@ static void audit(const char *when) {
     for (int w = 0; w < 3; w++) { nseq[w] = 0; int rc = m_bst_traverse(T, w == 0 ? M_BST_PRE : w == 1 ? M_BST_POST : M_BST_IN, trav_cb, (void *)(intptr_t)w);
         if (rc) sx_fail("BST.trav", "BST.trav|rc", "traverse returned %d", rc);
         if (nseq[w] != cnt) sx_fail("BST.trav", "BST.trav|count", "%s traversal yields %d elements, monitor has %d (%s)", w == 0 ? "pre-order" : w == 1 ? "post-order" : "in-order", nseq[w], cnt, when); }
+    {   /* m_bst_iterate: every element exactly once (the same walk as the pre-order traversal) */
+        int save[16], nsave = nseq[0]; memcpy(save, seq[0], sizeof(int) * (nsave < 16 ? nsave : 16)); nseq[0] = 0;
+        int rc = m_bst_iterate(T, trav_cb, (void *)(intptr_t)0);
+        if (rc) sx_fail("BST.trav", "BST.trav|rc", "m_bst_iterate returned %d", rc);
+        if (nseq[0] != cnt) sx_fail("BST.trav", "BST.trav|count", "m_bst_iterate yields %d elements, monitor has %d (%s)", nseq[0], cnt, when);
+        for (int i = 0; i < cnt && i < 16; i++) if (seq[0][i] != save[i]) sx_fail("BST.trav", "BST.trav|iterate", "m_bst_iterate and the pre-order traversal disagree at position %d (%s)", i, when);
+    }
     for (int i = 0; i < cnt; i++) {
         if (present[seq[2][i]] < 0) sx_fail("BST.set", "BST.set|ghost", "in-order traversal yields key %d which is not in the set (%s)", seq[2][i], when);
         if (i && ord(seq[2][i - 1]) >= ord(seq[2][i])) sx_fail("BST.order", "BST.order|inorder", "in-order traversal not strictly ascending at position %d (%s)", i, when);
